@@ -59,7 +59,7 @@ class Layout:
 
 # ------------------------------------------------------------------ memory
 class Obj:
-    __slots__ = ('base', 'size', 'alive', 'kind', 'cells', 'name', 'default')
+    __slots__ = ('base', 'size', 'alive', 'kind', 'cells', 'name', 'default', 'seq')
     def __init__(s, base, size, kind, name=''):
         s.base = base; s.size = size; s.alive = True; s.kind = kind; s.cells = {}; s.name = name
         s.default = 0 if kind == 'global' else UNDEF      # bytes never written: zero for globals, uninitialised otherwise
@@ -72,7 +72,7 @@ class Mem:
         if kind == 'heap': base += 16          # operator new guarantees 16, not more
         elif align < 64: base += (align if align >= 1 else 1) * (1 if (64 // max(align, 1)) > 1 else 0)   # exactly the requested alignment
         s.next = base + max(size, 1) + 64
-        o = Obj(base, size, kind, name); s.bases.append(base); s.objs.append(o); s.nalloc += 1
+        o = Obj(base, size, kind, name); o.seq = s.nalloc; s.bases.append(base); s.objs.append(o); s.nalloc += 1
         return o
     def find(s, addr, n, what):
         i = bisect.bisect_right(s.bases, addr) - 1
@@ -621,7 +621,7 @@ class Interp:
                     elif op == 'alloca':
                         n = 1 if it[3] is None else s.val(env, it[3])
                         if not isinstance(n, int): raise Unsupported('symbolic alloca size')
-                        o = mem.alloc(s.L.size(it[2]) * n, 'stack', name[:30] + '%' + it[1], it[4]); frame_objs.append(o)
+                        o = mem.alloc(s.L.size(it[2]) * n, 'stack', name[:90] + '%' + it[1], it[4]); frame_objs.append(o)
                         env[it[1]] = o.base
                     elif op == 'ret':
                         return None if it[1] is None else s.val(env, it[1])
@@ -703,6 +703,7 @@ class Interp:
     def memcpy(s, d, sr, n):
         if not (isinstance(d, int) and isinstance(sr, int) and isinstance(n, int)): raise Unsupported('symbolic memcpy')
         if n == 0: return
+        if s.trace_mem is not None: s.trace_mem.append(('r', sr, n)); s.trace_mem.append(('w', d, n))
         so, soff = s.mem.find(sr, n, 'memcpy read'); do, doff = s.mem.find(d, n, 'memcpy write')
         # collect source cells (split straddlers)
         for k in list(so.cells):
@@ -725,6 +726,7 @@ class Interp:
             if name.startswith('llvm.memset'):
                 if not all(isinstance(x, int) for x in a[:3]): raise Unsupported('symbolic memset')
                 if a[2]:
+                    if s.trace_mem is not None: s.trace_mem.append(('w', a[0], a[2]))
                     o, off = s.mem.find(a[0], a[2], 'memset')
                     for k in list(o.cells):
                         e = o.cells.get(k)
